@@ -655,7 +655,21 @@ func (e *execState) directOracles(bo *blockObs) {
 			case StStarted:
 				due = pa.EndTimes[len(pa.EndTimes)-1] <= t
 			case StVesting:
-				due = true // releases are checked by C09's oracle
+				// an instalment is due, or none is left (the auction may finish); otherwise nothing of a
+				// vesting auction may move in this block - in particular not because another auction's
+				// settlement or release was processed
+				unreleased := 0
+				for _, q := range pa.Queue {
+					if !q.Released {
+						unreleased++
+						if q.ReleaseNs <= t {
+							due = true
+						}
+					}
+				}
+				if unreleased == 0 {
+					due = true
+				}
 			}
 			if due {
 				continue
